@@ -27,6 +27,7 @@ func streamOps(isValue bool) []rlib.Op {
 			{Kind: rlib.OpSet, Val: v2},
 			{Kind: rlib.OpSet, Val: v3},
 			{Kind: rlib.OpSet, Val: v2, WriteTick: 500},
+			{Kind: rlib.OpSet, Val: v3, WriteTick: rlib.ZeroTimeTick},
 			{Kind: rlib.OpSet, Val: v1, UpdateMask: &fieldmaskpb.FieldMask{Paths: []string{"d"}}},
 			{Kind: rlib.OpSet, Val: v2, Expected: fm(1, 1), ExpectedLabel: "v1"},
 			{Kind: rlib.OpSet, Val: v3, Check: "reject:ABORTED"},
@@ -44,6 +45,7 @@ func streamOps(isValue bool) []rlib.Op {
 			rlib.Op{Kind: rlib.OpUpdate, ID: id, Val: v2, Expected: fm(1, 1), ExpectedLabel: "v1"},
 			rlib.Op{Kind: rlib.OpDelete, ID: id},
 			rlib.Op{Kind: rlib.OpDelete, ID: id, AllowMissing: true, WriteTick: 700},
+			rlib.Op{Kind: rlib.OpUpdate, ID: id, Val: v2, CreateIfAbsent: true, WriteTick: rlib.ZeroTimeTick},
 		)
 	}
 	return ops
